@@ -496,6 +496,25 @@ class Interp(object):
         if not (isinstance(a, Sym) or isinstance(b, Sym)):
             if isinstance(a, FmtStr) or isinstance(b, FmtStr):
                 return fmt_compare(self, t, a, b)
+            if t in (ast.Eq, ast.NotEq) and type(a) in (tuple, list) and type(a) is type(b) and \
+                    (any(isinstance(x, Sym) for x in a) or any(isinstance(x, Sym) for x in b)):
+                if len(a) != len(b):
+                    r = False
+                else:
+                    terms = []
+                    r = True
+                    for x, y in zip(a, b):
+                        e = self.compare(ast.Eq(), x, y)
+                        if e is False:
+                            r = False
+                            break
+                        if e is not True:
+                            terms.append(S.as_z3_bool(e))
+                    if r is True and terms:
+                        r = SBool(z3.And(*terms))
+                if t is ast.NotEq:
+                    r = (not r) if isinstance(r, bool) else SBool(z3.Not(r.t))
+                return r
             f = {ast.Eq: operator.eq, ast.NotEq: operator.ne, ast.Lt: operator.lt,
                  ast.LtE: operator.le, ast.Gt: operator.gt, ast.GtE: operator.ge}[t]
             return f(a, b)
